@@ -1,5 +1,6 @@
 import Op2Proofs.Prt.ReadFacts
 import Op2Proofs.Prt.WriteFacts
+import Op2Proofs.Prt.RoundTrip
 /-!
 # C10 — PRT sprite metadata round-trips and always satisfies its cross-field rules
 -/
@@ -24,6 +25,30 @@ theorem C10_writer_refuses (a : ArtFile) (hr : a.Rep) (h : ¬ rules a) : ∃ e, 
   cases hw : write a with
   | error e => exact ⟨e, rfl⟩
   | ok w => exact absurd (write_rules hr hw) h
+
+/-- write → read yields an equal structure: the structure just read is always written (never refused), and reading
+    the written bytes returns it again, consuming all of them -/
+theorem C10_rt (b : Bytes) (a : ArtFile) (h : read b = .ok a) :
+    ∃ w, write a = .ok w ∧ read w = .ok a ∧ consumed w = w.length := by
+  have hr := C10_read_rep b a h
+  have hrules := C10_read_rules b a h
+  exact ⟨encFile a, write_of hr hrules, (read_write a hr hrules).1, (read_write a hr hrules).2⟩
+
+/-- the same for every well-formed structure, however it was obtained -/
+theorem C10_rt_wf (a : ArtFile) (h : Spec.WF a) : ∃ w, write a = .ok w ∧ read w = .ok a :=
+  ⟨encFile a, write_of h.1 h.2, (read_write a h.1 h.2).1⟩
+
+/-- writing is byte-stable: read, write, read again, write again — the second output is identical to the first -/
+theorem C10_stable (b : Bytes) (a : ArtFile) (h : read b = .ok a) (w : Bytes) (hw : write a = .ok w)
+    (a' : ArtFile) (h' : read w = .ok a') : write a' = .ok w := by
+  obtain ⟨w0, hw0, hr0, _⟩ := C10_rt b a h
+  rw [hw] at hw0
+  have : w = w0 := by simpa using hw0
+  subst this
+  rw [hr0] at h'
+  have : a = a' := by simpa using h'
+  subst this
+  exact hw
 
 /- "Writing never alters the in-memory object": `write : ArtFile → Except Err Bytes` is a function; its argument is a value,
    not a reference, so the clause has no content in the model.  It is checked on the real object (structural dump before
